@@ -187,3 +187,37 @@ func init() {
 		},
 	})
 }
+
+func genKeyCacheHistory(seed uint64, tier string) *spec.RunSpec {
+	r := simnet.NewRng(seed, "kc-hist")
+	s := &spec.RunSpec{Property: "C08", Scenario: "history", Seed: seed, Profile: "c08-keycache-history"}
+	s.StartOffsetUs = genStartOffset(r)
+	h := &spec.History{Kind: "keycache"}
+	n := 30 + r.Intn(120)
+	sec := int64(1000000)
+	base := int64(0)
+	for i := 0; i < n; i++ {
+		if r.Bool(0.4) {
+			h.Ops = append(h.Ops, spec.HOp{Op: "sleep", SleepUs: int64(r.Pick(1, 1000, 1000000, 24000000, 25000000, 29999000, 30000000, 31000000, 61000000, 119000000, 121000000))})
+			continue
+		}
+		// instants: around the current time, around slot changes (60 s + k*120 s), non-monotonic
+		var at int64
+		switch r.Intn(6) {
+		case 0:
+			at = base + int64(r.Intn(600))*sec
+		case 1:
+			at = (60+120*int64(r.Intn(6)))*sec + int64(r.Pick(-1000000, -1, 0, 1, 999999, 1000000)) - s.StartOffsetUs
+		case 2:
+			at = base - int64(r.Intn(300))*sec
+		case 3:
+			at = int64(r.Intn(3600)) * sec
+		default:
+			at = base + int64(r.Pick(0, 1, 29000000, 30000000, 35000000))
+		}
+		base = at
+		h.Ops = append(h.Ops, spec.HOp{Op: "lookup", AtUs: at})
+	}
+	s.Hist = h
+	return s
+}
